@@ -34,7 +34,8 @@ first=sum(1 for m in metas if m['check'].get('first_pass_detected_by_own_propert
 firstany=sum(1 for m in metas if m['check'].get('first_pass_detected_by_own_property') or m['check'].get('first_pass_other_properties'))
 now=sum(1 for m in metas if m['check'].get('detected_by_own_property'))
 r3=[m for m in metas if m.get('round')==3]
-t="%d changes: %d from a first round of 20 agents (one per property, up to three changes each; ids -1 to -3) and %d from a later, held-out round of 20 fresh agents asked for one less obvious change each (ids -4, §8.3).\n\n"%(n,n-len(r3),len(r3))
+r4=[m for m in metas if m.get('round')==4]
+t="%d changes: %d from a first round of 20 agents (one per property, up to three changes each; ids -1 to -3), %d from a later, held-out round of 20 fresh agents asked for one less obvious change each (ids -4, §8.3) and %d from a last held-out round steered away from the kinds already seen (ids -5, §8.4).\n\n"%(n,n-len(r3)-len(r4),len(r3),len(r4))
 t+="| id | change (agent's title) | confirmed by me: builds / 120 tests / demo clean->patched | first pass | now: reported by |\n|---|---|---|---|---|\n"
 for m in metas:
     c=m['confirmed']; ch=m['check']
@@ -44,11 +45,12 @@ for m in metas:
     nowtxt=('%s %s'%(mm.group(2),mm.group(3)[:70]) if mm else rep[:80]) if ch.get('detected_by_own_property') else '**missed**'
     title=(m.get('title') or '').replace('|','/')[:110]
     t+="| %s | %s | %s / %s / %s->%s | %s | %s |\n"%(m['id'],title,'ok' if c['builds'] else 'NO','ok' if c['baseline_tests_pass'] else 'flaky/NO',c['demo_on_clean_tree'],c['demo_with_patch'],fp,nowtxt.replace('|','/'))
-r12=[m for m in metas if m.get('round')!=3]
+r12=[m for m in metas if m.get('round') not in (3,4)]
+f4=sum(1 for m in r4 if m['check'].get('first_pass_detected_by_own_property'))
 f12=sum(1 for m in r12 if m['check'].get('first_pass_detected_by_own_property'))
 fa12=sum(1 for m in r12 if m['check'].get('first_pass_detected_by_own_property') or m['check'].get('first_pass_other_properties'))
 f3=sum(1 for m in r3 if m['check'].get('first_pass_detected_by_own_property'))
-t+="\nFirst pass (the checks as they stood when the agents of that round were started): round 1 %d of %d reported by the property attacked (%d by some property); round 3 %d of %d. After the strengthening described in 8.2 and 8.3: %d of %d.\n\n"%(f12,len(r12),fa12,f3,len(r3),now,n)
+t+="\nFirst pass (the checks as they stood when the agents of that round were started): round 1 %d of %d reported by the property attacked (%d by some property); round 3 %d of %d; round 4 %d of %d. After the strengthening described in 8.2, 8.3 and 8.4: %d of %d.\n\n"%(f12,len(r12),fa12,f3,len(r3),f4,len(r4),now,n)
 put('seeded',t+open(V+'/tools/design_seeded_notes.md').read())
 # benign (two rounds)
 def bentable(dirname, scope_note):
